@@ -38,8 +38,16 @@
 #define mm_realloc(p, sz) event_mm_realloc_((p), (sz))
 #define VP_HAVE_SIGNAL_C
 #include "evbase.h"
+#undef mm_malloc
+#undef mm_realloc
+#define mm_malloc(sz) vp_malloc_signal((sz))
+#define mm_realloc(p, sz) vp_realloc_signal((p), (sz))
 #include "signal.c"
 #include "signalfd.c"
+#undef mm_malloc
+#undef mm_realloc
+#define mm_malloc(sz) event_mm_malloc_((sz))
+#define mm_realloc(p, sz) event_mm_realloc_((p), (sz))
 #include "sigmodel.h"
 
 #define A VP_SIGA
@@ -60,6 +68,7 @@ static int bad_what;
 static struct sigaction orig[2];  /* dispositions before libevent touched the signals */
 static int use_sigfd;
 static int freed;
+static int in_loop, noted_in_loop[2];   /* deliveries noted by the mechanism while event_base_loop runs (raised from callbacks) */
 
 char *getenv(const char *name) { (void)name; return NULL; }
 
@@ -84,7 +93,7 @@ static void kernel_reports(struct event_base *b, struct timeval *tv)
 			evmap_io_active_(b, b->sig.ev_signal_pair[0], EV_READ);
 	} else {
 		for (i = 0; i < VP_NSIGFD; i++)
-			if (i < vp_nsigfd && vp_sigfd[i].open && vp_sig_fd_readable(vp_sigfd[i].fd))
+			if (i < vp_nsigfd && VP_SIGFD_ALIVE(&vp_sigfd[i]) && vp_sig_fd_readable(vp_sigfd[i].fd))
 				evmap_io_active_(b, vp_sigfd[i].fd, EV_READ);
 	}
 }
@@ -101,8 +110,10 @@ static void raise_sig(int sig)
 {
 	int k = vp_sig_idx(sig), i, before = noted(k);
 	vp_sig_deliver(sig);
-	if (noted(k) > before)
+	if (noted(k) > before) {
+		if (in_loop) noted_in_loop[k]++;
 		for (i = 0; i < NEV; i++) if (added[i] && sig_of[i] == sig) due[i]++;
+	}
 }
 
 static int same_disposition(const struct sigaction *x, const struct sigaction *y);
@@ -178,10 +189,13 @@ static void step_loop(void)
 	__CPROVER_assume(!freed);
 	n0 = noted(0); n1 = noted(1);
 	for (i = 0; i < NEV; i++) { calls_loop[i] = 0; must[i] = added[i] && due[i] > 0; }
+	noted_in_loop[0] = noted_in_loop[1] = 0; in_loop = 1;
 	r = event_base_loop(base, EVLOOP_NONBLOCK);
+	in_loop = 0;
 	VP_ASSERT(r == 0 || r == 1, "C07: loop iteration succeeds");
 	for (i = 0; i < NEV; i++) {
-		VP_ASSERT(calls_loop[i] <= (sig_of[i] == A ? n0 : n1), "C07: call count no larger than the deliveries of the signal");
+		/* (EVLOOP_NONBLOCK polls again while callbacks were run, so a signal raised inside a callback can be answered in the same call) */
+		VP_ASSERT(calls_loop[i] <= (sig_of[i] == A ? n0 + noted_in_loop[0] : n1 + noted_in_loop[1]), "C07: call count no larger than the deliveries of the signal");
 		if (must[i])
 			VP_ASSERT(calls_loop[i] >= 1, "C07: a batch of deliveries raised while the event was added runs its callback at least once");
 	}
@@ -222,7 +236,8 @@ void harness_signals(void)
 		unsigned h = (unsigned)vp_range(0, 2);
 		memset(&orig[k], 0, sizeof(orig[k]));
 		orig[k].sa_handler = h == 0 ? SIG_DFL : (h == 1 ? SIG_IGN : vp_app_handler);
-		orig[k].sa_flags = (int)(vp_u32() & (SA_RESTART | SA_NODEFER | SA_RESETHAND));
+		orig[k].sa_flags = (k ? SA_NODEFER | SA_RESETHAND : SA_NODEFER) | VP_SA_APPTAG;   /* concrete: `(sym | TAG) & TAG` is not folded by cbmc and every delivery would fork */
+		vp_sig_orig_kind[k] = (int)h;
 		orig[k].sa_mask.__val[0] = vp_u64();
 		vp_sa[k] = orig[k];
 	}
